@@ -133,6 +133,48 @@ def mol2_text(na, ks, seed):
 
 
 ROT_Z90 = np.array([[0.0, -1.0, 0.0], [1.0, 0.0, 0.0], [0.0, 0.0, 1.0]])
+ROT_X90 = np.array([[1.0, 0.0, 0.0], [0.0, 0.0, -1.0], [0.0, 1.0, 0.0]])  # not symmetric
+ROT_Z180 = np.array([[-1.0, 0.0, 0.0], [0.0, -1.0, 0.0], [0.0, 0.0, 1.0]])  # symmetric (its own inverse)
+ROT_X180 = np.array([[1.0, 0.0, 0.0], [0.0, -1.0, 0.0], [0.0, 0.0, -1.0]])
+
+
+def rot_stack(nc, symmetric=False):
+    """one matrix per conformer, all different from their neighbours"""
+    pool = [ROT_Z180, ROT_X180] if symmetric else [ROT_Z90, ROT_Z90.T, ROT_X90]
+    return np.array([pool[i % len(pool)] for i in range(nc)], dtype=float).reshape((nc, 3, 3))
+
+
+def tr2_vectors(nc):
+    return np.array([[1.0 + i, -0.5 * i, 0.25] for i in range(nc)], dtype=float).reshape((nc, 3))
+
+
+def tf_reference(t, c):
+    """per-conformer reference: row i is conformer i's geometry moved by ITS vector / matrix
+    (row-vector convention x @ R, as Conformer.transform and the one-matrix rotate use)"""
+    c = np.array(c, dtype=float)
+    nc = c.shape[0]
+    if t == "tr1":
+        return c + TR1
+    if t == "tr2":
+        v = tr2_vectors(nc)
+        return np.array([c[i] + v[i] for i in range(nc)]).reshape(c.shape)
+    if t in ("rot", "rot_x", "rot180"):
+        R = {"rot": ROT_Z90, "rot_x": ROT_X90, "rot180": ROT_Z180}[t]
+        return np.array([c[i] @ R for i in range(nc)]).reshape(c.shape)
+    if t in ("rotn", "rotn180"):
+        R = rot_stack(nc, symmetric=(t == "rotn180"))
+        return np.array([c[i] @ R[i] for i in range(nc)]).reshape(c.shape)
+    if t == "scale2":
+        return c * 2.0
+    if t == "invert":
+        return c * -1.0
+    if t == "center_atom":
+        return np.array([c[i] - c[i, 0] for i in range(nc)]).reshape(c.shape)
+    if t == "center_core":
+        return np.array([c[i] - np.average(c[i], axis=0) for i in range(nc)]).reshape(c.shape)
+    raise HarnessError(t)
+
+
 W_VEC = np.array([7.5, -3.25, 0.5])
 TR1 = np.array([1.0, -2.0, 0.5])
 
@@ -146,10 +188,10 @@ def w_charges(na):
 
 
 # constructor kinds: (expected number of conformers or None = "whatever the object says")
-KINDS = ["list2", "mol", "list3", "atoms2", "ens", "empty", "atoms0", "mol_n3", "list1", "natoms", "kw", "xyz", "mol2", "struct", "clib", "kw_row", "kw_scalar", "kw_one", "kw_alias", "kw_list", "kw_int"]
-KIND_NC = {"list1": 1, "list2": 2, "list3": 3, "mol": None, "mol_n3": 3, "ens": 2, "atoms2": 2, "atoms0": 0, "natoms": 2, "empty": 0, "kw": 2, "xyz": 2, "mol2": 2, "struct": None, "clib": 3, "kw_row": 2, "kw_scalar": 2, "kw_one": 2, "kw_alias": 2, "kw_list": 2, "kw_int": 2}
+KINDS = ["list2", "mol", "list3", "atoms2", "ens", "empty", "atoms0", "mol_n3", "list1", "natoms", "kw", "xyz", "mol2", "struct", "clib", "kw_row", "kw_scalar", "kw_one", "kw_alias", "kw_list", "kw_int", "conflist"]
+KIND_NC = {"list1": 1, "list2": 2, "list3": 3, "mol": None, "mol_n3": 3, "ens": 2, "atoms2": 2, "atoms0": 0, "natoms": 2, "empty": 0, "kw": 2, "xyz": 2, "mol2": 2, "struct": None, "clib": 3, "kw_row": 2, "kw_scalar": 2, "kw_one": 2, "kw_alias": 2, "kw_list": 2, "kw_int": 2, "conflist": 2}
 
-KIND_CLASS = {"list1": "molecule-list", "list2": "molecule-list", "list3": "molecule-list", "mol": "molecule", "mol_n3": "molecule", "ens": "ensemble", "atoms2": "atom-list", "atoms0": "atom-list", "kw": "atom-list+arrays", "natoms": "n_atoms", "empty": "no-arguments", "xyz": "loads_xyz", "mol2": "loads_mol2", "struct": "structure", "clib": "library-read", "kw_row": "atom-list+arrays<row>", "kw_scalar": "atom-list+arrays<scalar>", "kw_one": "atom-list+arrays<one>", "kw_alias": "atom-list+arrays<alias>", "kw_list": "atom-list+arrays<list>", "kw_int": "atom-list+arrays<int>"}
+KIND_CLASS = {"list1": "molecule-list", "list2": "molecule-list", "list3": "molecule-list", "mol": "molecule", "mol_n3": "molecule", "ens": "ensemble", "atoms2": "atom-list", "atoms0": "atom-list", "kw": "atom-list+arrays", "natoms": "n_atoms", "empty": "no-arguments", "xyz": "loads_xyz", "mol2": "loads_mol2", "struct": "structure", "clib": "library-read", "kw_row": "atom-list+arrays<row>", "kw_scalar": "atom-list+arrays<scalar>", "kw_one": "atom-list+arrays<one>", "kw_alias": "atom-list+arrays<alias>", "kw_list": "atom-list+arrays<list>", "kw_int": "atom-list+arrays<int>", "conflist": "conformer-list"}
 
 APPEND_SRC = ["M0", "own0", "E2c1", "Mx"]
 EXTEND_SRC = ["L1", "L2", "E2", "self", "ownslice", "gen", "L0", "tuple2", "map2", "filter2", "iter2", "E2slice", "gen0"]
@@ -159,7 +201,7 @@ SRC_ARGCLASS = {"L1": "sequence", "L2": "sequence", "tuple2": "sequence", "ownsl
 
 def src_add(src, nc):
     return nc if src == "self" else (min(nc, 2) if src == "ownslice" else SRC_ADD[src])
-TFS = ["tr1", "tr2", "rot", "rotn", "scale2", "invert", "center_atom", "center_core"]
+TFS = ["tr1", "tr2", "rot", "rotn", "scale2", "invert", "center_atom", "center_core", "rot_x", "rot180", "rotn180"]
 WRITES = ["c_el", "c_all", "q_el", "q_all", "m_translate", "m_transform", "m_scale"]
 ROUTES = ["idx", "neg", "slice"]
 SETS = ["weights", "coords", "charges"]
@@ -422,6 +464,8 @@ class ESys:
             return ConformerEnsemble([M[0], M[1], M[2]])
         if kind == "ens":
             return ConformerEnsemble(st.e2)
+        if kind == "conflist":
+            return ConformerEnsemble(st.e2[0:2])
         if kind == "atoms2":
             return ConformerEnsemble(mk_atoms(na), n_conformers=2, name="mol")
         if kind == "atoms0":
@@ -462,6 +506,27 @@ class ESys:
             finally:
                 self._lib_done(lib, self.libpath_c)
         raise HarnessError(f"unknown constructor kind {kind}")
+
+    def _new_expected(self, st, kind):
+        """per-conformer quantities a construction route fixes: (coords, charges, weights), None = open"""
+        na, seed = self.na0, self.seed
+        M = st.mols
+        if kind in ("list1", "list2", "list3"):
+            n = int(kind[4:])
+            return np.array([m.coords for m in M[:n]], dtype=float).reshape((n, na, 3)), np.array([m.atomic_charges for m in M[:n]], dtype=float).reshape((n, na)), None
+        if kind in ("conflist", "ens"):
+            return np.array(st.e2.coords, dtype=float), np.array(st.e2.atomic_charges, dtype=float), (np.array(st.e2.weights, dtype=float) if kind == "ens" else None)
+        if kind == "clib":
+            return (
+                np.array([m.coords for m in M[:3]], dtype=float).reshape((3, na, 3)),
+                np.array([m.atomic_charges for m in M[:3]], dtype=float).reshape((3, na)),
+                np.array([0.5, 0.25, 0.125]),
+            )
+        if kind == "xyz":
+            return np.array([base_coords(na, k_, seed) for k_ in (0, 1)]).reshape((2, na, 3)), None, None
+        if kind == "mol2":
+            return np.array([base_coords(na, k_, seed) for k_ in (0, 1)]).reshape((2, na, 3)), np.array([base_charges(na, k_, seed) for k_ in (0, 1)]).reshape((2, na)), None
+        return None, None, None
 
     def form_value(self, st, what, form, nc, na):
         """the value assigned for (array, form); always a fresh object except 'own' / 'alias'"""
@@ -653,6 +718,13 @@ class ESys:
             st.elements = [a.element for a in e.atoms]
             st.name = e.name
             ok = self._check_rect(st, op, oc)
+            if ok and not self.quiet:
+                exp3 = self._new_expected(st, k)
+                real3 = (e.coords, e.atomic_charges, e.weights)
+                badn = [n_ for n_, x_, r_ in zip(("coords", "charges", "weights"), exp3, real3) if x_ is not None and not close(np.array(r_, dtype=float), x_, 1e-9)]
+                if badn:
+                    self.viol(st, op, f"{oc}:row-i-is-not-structure-i[{','.join(badn)}]", f"constructor {k}: the {badn} rows of the ensemble are not those of the structures it was made from")
+                    return False
             if ok:
                 self._resync(st)
                 ok = self._check_state(st, op, oc, None, None, alias=True)
@@ -728,6 +800,16 @@ class ESys:
                 self._mark(st, M_CENTER if t == "center_core" else M_OTHER, None)
                 return ok
             ok = self._check_rect(st, op, oc)
+            if ok and not self.quiet and not degenerate:
+                # row i of the result is conformer i moved by ITS vector / matrix; charges and weights stay
+                ref = tf_reference(t, pre[0])
+                if not close(np.array(e.coords, dtype=float), ref, 1e-9):
+                    rows = [i for i in range(st.nc) if not close(np.array(e.coords[i], dtype=float), ref[i], 1e-9)]
+                    self.viol(st, op, f"{oc}:rows-differ-from-the-per-conformer-result", f"after {t}: rows {rows[:4]} are not what moving conformer i on its own (x @ R[i] / x + v[i]) gives")
+                    return False
+                if not eqnan(e.atomic_charges, pre[1]) or not eqnan(e.weights, pre[2]):
+                    self.viol(st, op, f"{oc}:charges-or-weights-changed", f"{t} changed atomic charges or weights")
+                    return False
             if ok:
                 self._resync(st)
                 ok = self._check_state(st, op, oc, None, None, alias=False)
@@ -1054,11 +1136,17 @@ class ESys:
         if t == "tr1":
             e.translate(TR1)
         elif t == "tr2":
-            e.translate(np.array([[1.0 + i, -0.5 * i, 0.25] for i in range(nc)], dtype=float).reshape((nc, 3)))
+            e.translate(tr2_vectors(nc))
         elif t == "rot":
             e.rotate(ROT_Z90)
+        elif t == "rot_x":
+            e.rotate(ROT_X90)
+        elif t == "rot180":
+            e.rotate(ROT_Z180)
         elif t == "rotn":
-            e.rotate(np.array([ROT_Z90 if i % 2 else ROT_Z90.T for i in range(nc)], dtype=float).reshape((nc, 3, 3)))
+            e.rotate(rot_stack(nc))
+        elif t == "rotn180":
+            e.rotate(rot_stack(nc, symmetric=True))
         elif t == "scale2":
             e.scale(2.0)
         elif t == "invert":
@@ -1676,6 +1764,7 @@ def repro_code(na, seed, hist):
         "list2": "ml.ConformerEnsemble([M[0], M[1]])",
         "list3": "ml.ConformerEnsemble([M[0], M[1], M[2]])",
         "ens": "ml.ConformerEnsemble(E2)",
+        "conflist": "ml.ConformerEnsemble(E2[0:2])",
         "atoms2": "ml.ConformerEnsemble([Atom(E[j % 4]) for j in range(na)], n_conformers=2)",
         "atoms0": "ml.ConformerEnsemble([Atom(E[j % 4]) for j in range(na)], n_conformers=0)",
         "natoms": "ml.ConformerEnsemble(n_conformers=2, n_atoms=na)",
@@ -1697,7 +1786,10 @@ def repro_code(na, seed, hist):
         "tr1": "ens.translate([1.0, -2.0, 0.5])",
         "tr2": "ens.translate(np.ones((ens.n_conformers, 3)))",
         "rot": "ens.rotate(R)",
-        "rotn": "ens.rotate(np.stack([R] * ens.n_conformers))",
+        "rotn": "Rs = np.stack([[R, R.T][i % 2] for i in range(ens.n_conformers)]); before = ens.coords.copy(); ens.rotate(Rs); print('per-conformer reference agrees:', [bool(np.allclose(ens.coords[i], before[i] @ Rs[i], equal_nan=True)) for i in range(ens.n_conformers)])",
+        "rot_x": "ens.rotate(np.array([[1., 0, 0], [0, 0, -1], [0, 1, 0]]))",
+        "rot180": "ens.rotate(np.diag([-1., -1, 1]))",
+        "rotn180": "ens.rotate(np.stack([np.diag([-1., -1, 1])] * ens.n_conformers))",
         "scale2": "ens.scale(2.0)",
         "invert": "ens.invert()",
         "center_atom": "ens.center_at_atom(ens.atoms[0])",
@@ -2184,7 +2276,7 @@ def run(ctx):
         "observer (thorough: two rounds) is executed without any deduplication"
     )
     ctx.assumptions += [
-        "the values stored by collective transformations and by constructors without keyword arrays are not part of this property (C06/C11): after checking the shapes the model re-synchronises from the object; but rows belong to conformers: append/extend leave the existing rows of coords/charges/weights as they were and the new rows are the coordinates and partial charges of the geometries handed in (weights: those of an ensemble argument), and a keyword array given to the constructor is what the ensemble shows",
+        "rows belong to conformers: after a collective transformation row i is conformer i's geometry moved by ITS vector / matrix (row-vector convention x @ R[i], as Conformer.transform and the one-matrix rotate have it), charges and weights unchanged; a construction route that fixes per-conformer quantities (list of molecules / conformers, ensemble, library, mol2 / xyz text) shows structure i's coordinates and partial charges in row i; what no input fixes (e.g. coordinates of ConformerEnsemble(mol)) is taken from the object; append/extend leave the existing rows of coords/charges/weights as they were and the new rows are the coordinates and partial charges of the geometries handed in (weights: those of an ensemble argument), and a keyword array given to the constructor is what the ensemble shows",
         "appending / extending with a geometry of a different atom count, extending with an empty list, and transforming an ensemble with 0 conformers or 0 atoms may either raise (state unchanged) or succeed (state rectangular by the ensemble's own n_conformers/n_atoms)",
         "append/extend are not generated while an iterator is live (growing a sequence under iteration is outside the property)",
         "a conformer object is identified with a row by its declared conformer id, else by the memory its coords view",
